@@ -9,6 +9,7 @@ import Cosi.Driver.Watch
 import Cosi.Driver.Helpers
 import Cosi.Driver.KeyStorage
 import Cosi.Driver.Queue
+import Cosi.Driver.DepDB
 
 open Cosi
 
@@ -23,7 +24,9 @@ def engines : List (String × Engine) := [
   ("helpers", ⟨HSys, Driver.Helpers.init, Driver.Helpers.stepLine⟩),
   ("keystorage", ⟨Driver.KeyStorage.St, Driver.KeyStorage.init, Driver.KeyStorage.stepLine⟩),
   ("queue", ⟨Driver.Queue.St, Driver.Queue.init, Driver.Queue.stepQueue⟩),
-  ("qreconcile", ⟨Driver.Queue.St, Driver.Queue.init, Driver.Queue.stepReconcileAny⟩)
+  ("qreconcile", ⟨Driver.Queue.St, Driver.Queue.init, Driver.Queue.stepReconcileAny⟩),
+  ("depdb", ⟨Driver.DepDB.St, Driver.DepDB.init, Driver.DepDB.stepLine⟩),
+  ("registry", ⟨Driver.DepDB.RSt, Driver.DepDB.rinit, Driver.DepDB.rstepLine⟩)
 ]
 
 partial def loop (e : Engine) (spec : Bool) (inp : IO.FS.Stream) (out : IO.FS.Stream) (st : e.σ) : IO Unit := do
